@@ -591,6 +591,25 @@ func hasEffects(fn *ssa.Function) bool {
 
 // c13Counts checks the shape of the count/size reject conditions.
 func c13Counts(p *Prog, r *Report) {
+	// the validation functions decide from their arguments alone: a verdict remembered under a key that is coarser than
+	// the types compared would let a later, ill-fitting configuration through
+	var vroots []*ssa.Function
+	for _, f := range []*ssa.Function{p.Fn("internal/patch", "SignatureEquals"), p.Fn("", "CreateWhen"), p.Fn("arg", "I2V"), p.Fn("arg", "ToExpr")} {
+		if f != nil {
+			vroots = append(vroots, f)
+		}
+	}
+	checkNoMutableState(p, r, "C13.R5", "validation", vroots, func(f *ssa.Function) bool {
+		switch relPkg(f) {
+		case "internal/patch":
+			return f.Name() == "SignatureEquals" || p.modReach(p.Fn("internal/patch", "SignatureEquals"))[f] && relPkg(f) == "internal/patch"
+		case "arg":
+			return true
+		case "":
+			return p.modReach(p.Fn("", "CreateWhen"))[f]
+		}
+		return false
+	}, "a configuration that should be rejected is accepted because an earlier, different one was accepted under the same key")
 	// (a) SignatureEquals: panics on NumIn/NumOut/In(i).Size/Out(i).Size inequality between the two types
 	if se := p.Fn("internal/patch", "SignatureEquals"); se != nil {
 		got := map[string]bool{}
